@@ -7,6 +7,9 @@ use crate::rng::{hash64, Rng};
 use crate::sy::{self, Compiled, CompileOpts, Files};
 use std::sync::OnceLock;
 
+const CENSUS_TARGETS: &[&str] = &["x", "t[0]", "t[1]", "tt[0][1]", "tt[0]", "l[0]", "b.n", "b.pair[1]", "b.inner.m", "b.inner.q[0]", "b.l[0]", "b.l", "(t)[0]", "mk().n", "mk().pair[0]", "b.f()", "x.y", "x[0]", "mk", "B.n", "t[2]", "b.nope"];
+const CENSUS_SLOTS: u64 = 22 * 5 * 4;
+
 pub struct C07;
 
 pub const FUEL: u64 = 30_000_000;
@@ -473,6 +476,20 @@ impl Check for C07 {
         scaled(ctx, 40_000, 1_200_000)
     }
     fn run_case(&self, ctx: &Ctx, index: u64, st: &mut Stats) {
+        if index < CENSUS_SLOTS {
+            // assignment census: every form an assignment target can take x every assignment operator x 4 value forms;
+            // valid or not, each must come back as Ok or as rendered errors
+            let (t, o, v) = ((index as usize) % CENSUS_TARGETS.len(), (index as usize / CENSUS_TARGETS.len()) % 5, (index as usize / (CENSUS_TARGETS.len() * 5)) % 4);
+            let stmt = format!("{} {} {}", CENSUS_TARGETS[t], ["=", "+=", "-=", "*=", "/="][o], ["5", "x", "t[0]", "b.n"][v]);
+            let text = format!(
+                "I :: blob {{\n    m: int,\n    q: (int, int),\n}}\n\nB :: blob {{\n    n: int,\n    pair: (int, int),\n    l: [int],\n    inner: I,\n    f: fn -> int,\n}}\n\nmk :: fn -> B do\n    B {{ n: 1, pair: (1, 2), l: [1], inner: I {{ m: 1, q: (1, 2) }}, f: fn -> int do\n        self.n = 2\n        self.pair[0] = 3\n        self.n\n    end }}\nend\n\nstart :: fn do\n    x := 1\n    t := (1, 2)\n    tt := ((1, 2), 3)\n    l := [1, 2]\n    b := mk()\n    {}\n    print(x)\nend\n",
+                stmt
+            );
+            st.count("assignment_census_programs");
+            judge(st, index, "assignment-census", &sy::one_file(&text), "main.sy", false, None);
+            st.nontrivial(hash64(text.as_bytes()));
+            return;
+        }
         let mut rng = Rng::for_case(ctx.seed, "C07", index);
         let corp = corpus();
         let no_std = rng.chance(1, 3);
